@@ -33,10 +33,18 @@ func init() {
 			for _, g := range [][6]int64{{6, 5, 6, 5, 0, 0}, {6, 5, 1, 1, 5, 4}, {6, 5, 7, 5, -1, 0}, {6, 5, 6, 6, 0, -1}, {6, 5, 8, 5, -1, 0}, {33, 2, 33, 2, 0, 0}, {6, 5, 0, 3, 0, 0}, {6, 5, 3, -1, 0, 0}} {
 				ts = append(ts, Task{Pkg: "common", Func: "VerifC19SampleTranslate", Args: g[:], Note: "image w,h, grid dimX,dimY, tx,ty"})
 			}
+			rr := int64(3)
+			if tier == "thorough" {
+				rr = 4
+			}
+			for x0 := int64(0); x0 <= rr; x0++ {
+				ts = append(ts, Task{Pkg: "common", Func: "VerifC19TransformGround", Args: ints(rr, x0), Note: "ground (concrete) enumeration: every convex quadrilateral with integer corners in 0..r and first x = x0, both directions"})
+			}
 			return ts
 		},
 		Bounds: func(tier string) map[string]interface{} {
 			return map[string]interface{}{
+				"transform_ground": "supplementary concrete enumeration (not symbolic): all strictly convex quadrilaterals with integer corners in 0..3 (thorough 0..4): corners map within 1e-6 in both directions",
 				"nudge":    "1-3 points with free float64 coordinates (|v| < 2^20) on images 1x1, 7x5, 64x64 (+ 2x9, 33x1, 1x40, 177x177 thorough)",
 				"sampling": "free 6x5 images (and 33x2), grids up to 8x6, every integer translation -3..5 (thorough -5..7) in both axes, both quarter turns; transform coefficients concrete",
 			}
